@@ -59,6 +59,7 @@ func checkC07(c *Ctx, r *Report) {
 	parseErrorsUsed(c, r, "C07.R3.parse-errors-used")
 	nestedGenerateBanned(c, r, "C07.R2.nested-generate-banned")
 	stickyOnErrorOnly(c, r, "C07.R3.sticky-on-error-only")
+	round12(c, r, "C07")
 }
 
 var fileOpeners = map[string]bool{"os.Open": true, "os.OpenFile": true, "os.ReadFile": true, "os.Create": true, "fs.ReadFile": true, "ioutil.ReadFile": true, "os.ReadDir": true, "(fs.FS).Open": true, "(io/fs.FS).Open": true}
